@@ -42,7 +42,18 @@ def policies(rng):
         last = trace[-1][0] if trace else None
         rest = [w for w in enabled if w != last]
         return rng.choice(rest) if rest else enabled[0]
-    return [('random', None), ('round-robin', rr), ('starve-0', starve0), ('sticky', sticky), ('switch', eager_switch)]
+    k_first = rng.randint(1, 10)
+
+    def stall_first(enabled, trace):
+        # worker 0 runs its first k steps (takes the first job and gets part-way), then is starved until nobody else can run:
+        # the first block completes last, inverting the completion order of the band-major queue
+        done0 = sum(1 for w, _ in trace if w == 0)
+        if done0 < k_first and 0 in enabled:
+            return 0
+        rest = [w for w in enabled if w != 0]
+        return rng.choice(rest) if rest else enabled[0]
+    return [('random', None), ('stall-first', stall_first), ('round-robin', rr), ('starve-0', starve0), ('sticky', sticky),
+            ('switch', eager_switch)]
 
 
 def result_sig(res):
@@ -76,7 +87,7 @@ def instrumented_fuse(pair, out, ctrl, threads, kw, mbm):
                 def call():
                     rf.process(out, Model(kw['model']), kw['kernel_shape'], param_filename=out.parent / (out.stem + '_PARAM.tif'),
                                build_ovw=False, overwrite=True, model_config=kw.get('model_config'),
-                               block_config=dict(threads=threads, max_block_mem=mbm))
+                               out_profile=kw.get('out_profile'), block_config=dict(threads=threads, max_block_mem=mbm))
                 fin, r = sc.run_with_watchdog(call, timeout=60)
                 box['finished'], box['exc'] = fin, (r if isinstance(r, BaseException) else None)
                 box['closed'] = [d.closed for d in outs.values() if d is not None]
@@ -89,10 +100,10 @@ def read_result(out):
     res = fusion.FuseResult()
     with rio.Env(GDAL_TIFF_INTERNAL_MASK=True):
         with rio.open(out) as ds:
-            res.corr, res.corr_masks = ds.read(), ds.read_masks()
+            res.corr, res.corr_masks = ds.read(), ds.read_masks().astype(bool)
             res.tags, res.descriptions = ds.tags(), ds.descriptions
         with rio.open(out.parent / (out.stem + '_PARAM.tif')) as ds:
-            res.param, res.param_masks = ds.read(), ds.read_masks()
+            res.param, res.param_masks = ds.read(), ds.read_masks().astype(bool)
             res.param_tags, res.param_descriptions = ds.tags(), ds.descriptions
     return res
 
@@ -103,7 +114,7 @@ def trace_line(ctrl, param, T, njobs, faults=()):
     return f'sched {int(param)} {T} {njobs} F {fl} E {ev}'.replace('  ', ' ')
 
 
-def make_pair(run, tmp, tag, rng, nb=2):
+def make_pair(run, tmp, tag, rng, nb=2, band_masks=False):
     src, ref = rasters.pair_geometry(rng, 'dyadic', 'auto', max_src=28, margin=(1, 2))
     while src.w < 12 or src.h < 12:
         src, ref = rasters.pair_geometry(rng, 'dyadic', 'auto', max_src=28, margin=(1, 2))
@@ -111,6 +122,12 @@ def make_pair(run, tmp, tag, rng, nb=2):
     r = np.array([[[rng.randint(30, 150) for _ in range(ref.w)] for _ in range(ref.h)] for _ in range(nb)], float)
     sv = np.ones((src.h, src.w), bool)
     sv[rng.randrange(src.h), rng.randrange(src.w)] = False
+    if band_masks:
+        # band-specific nodata regions (numeric nodata): the bands' validity masks differ
+        for b in range(nb):
+            r0, c0 = rng.randrange(src.h - 4), rng.randrange(src.w - 4)
+            s[b, r0:r0 + 4, c0:c0 + 5] = -9999.0
+        return fusion.write_pair(tmp, tag, src, ref, s, r, sv, None, src_nodata=-9999.0), src, ref
     return fusion.write_pair(tmp, tag, src, ref, s, r, sv, None), src, ref
 
 
@@ -130,20 +147,23 @@ def run(run: common.Run):
         rng = run.rng(k)
         model = ['gain-blk-offset', 'gain-offset', 'gain'][k % 3]
         kernel = (3, 3)
-        pair, src, ref = make_pair(run, tmp, f'c04_{k}', rng)
+        # every third set: output with an internal mask (nodata null) and band-specific source masks
+        variant = k % 3 == 1
+        pair, src, ref = make_pair(run, tmp, f'c04_{k}', rng, band_masks=variant)
+        oprof = dict(nodata=None) if variant else None
         proc_ref = src.px <= ref.px
         ph, pw = fusion.proc_window_shape(src, ref, proc_ref)
         hv = rng.choice([2, 3])
         mbm = fusion.block_mem_for(hv, ph, pw, src.px, ref.px, proc_ref)
-        kw = dict(model=model, kernel_shape=kernel, model_config=None)
+        kw = dict(model=model, kernel_shape=kernel, model_config=None, out_profile=oprof)
         try:
             base = fusion.run_fuse(pair.src_path, pair.ref_path, tmp / f'c04_{k}_base.tif', model=model, kernel_shape=kernel,
-                                   threads=1, max_block_mem=mbm, param=True)
+                                   threads=1, max_block_mem=mbm, param=True, out_profile=oprof)
         except BlockSizeError:
             hv = 1
             mbm = fusion.block_mem_for(hv, ph, pw, src.px, ref.px, proc_ref)
             base = fusion.run_fuse(pair.src_path, pair.ref_path, tmp / f'c04_{k}_base.tif', model=model, kernel_shape=kernel,
-                                   threads=1, max_block_mem=mbm, param=True)
+                                   threads=1, max_block_mem=mbm, param=True, out_profile=oprof)
         bsig = result_sig(base)
         with warnings.catch_warnings():
             warnings.simplefilter('ignore')
@@ -153,7 +173,7 @@ def run(run: common.Run):
         # free-running thread counts
         for th in (2, 4, 16):
             res = fusion.run_fuse(pair.src_path, pair.ref_path, tmp / f'c04_{k}_free.tif', model=model, kernel_shape=kernel,
-                                  threads=th, max_block_mem=mbm, param=True)
+                                  threads=th, max_block_mem=mbm, param=True, out_profile=oprof)
             run.evaluations += 1
             run.hist['free-running runs'] += 1
             if not same(result_sig(res), bsig):
